@@ -53,7 +53,7 @@ Print Assumptions C03_use_accepted.
 Definition flag_req (k : key) (req : list key) : argdef :=
   {| a_key := k; a_kind := DBool; a_vmode := VMNone; a_mand := false; a_multi := false; a_sep := 44%N;
      a_clear := false; a_sort := false; a_uniq := false; a_uniq_err := false; a_checks := []; a_fmts := [];
-     a_card := CardMax 1; a_excl := []; a_req := req; a_depr := false |}.
+     a_card := CardMax 1; a_excl := []; a_req := req; a_depr := false; a_mix := false |}.
 Definition cfg_req (fixed : bool) : cfg :=
   {| args := [flag_req k_l [key_of_char 114%N]; flag_req k_r []]; gcons := []; abbr := true; fixed_notify := fixed |}.
 
